@@ -224,6 +224,9 @@ pub struct World {
     git_clock: u64,
     pub knobs: Vec<(String, String)>,
     pub config_name: String,
+    /// RLIMIT_NOFILE for every monorail process of this world (a resource fault: descriptor exhaustion
+    /// must never change an answer silently)
+    pub nofile: Option<u64>,
 }
 
 impl Drop for World {
@@ -250,6 +253,7 @@ impl World {
             git_clock: 0,
             knobs: vec![],
             config_name: "Monorail.json".into(),
+            nofile: None,
         };
         let helper = bin_dir().join("vhelper");
         for t in &spec.targets {
@@ -364,6 +368,16 @@ impl World {
         cmd.arg("-f").arg(self.root.join(&self.config_name));
         cmd.args(args);
         cmd.current_dir(&self.root);
+        if let Some(n) = self.nofile {
+            use std::os::unix::process::CommandExt;
+            unsafe {
+                cmd.pre_exec(move || {
+                    let lim = libc::rlimit { rlim_cur: n as libc::rlim_t, rlim_max: n as libc::rlim_t };
+                    libc::setrlimit(libc::RLIMIT_NOFILE, &lim);
+                    Ok(())
+                });
+            }
+        }
         cmd
     }
 
